@@ -37,6 +37,7 @@ type Term struct {
 	MaxLen int      // strings: upper bound of length, -1 unknown
 	Signed bool     // hint for BV consts when printing models
 	Alpha  *[256]bool // strings: if non-nil, every byte of the value is in this set
+	Exact  int        // strings (variables): exact length when > 0
 	L      *lin       // KInt: linear normal form
 	text   string
 }
@@ -455,6 +456,13 @@ func Eq(a, b *Term) *Term {
 		if d, ok := linConstDiff(a, b); ok {
 			return mkBool(d == 0)
 		}
+		// str.to_code(x) == c (c >= 0)  <=>  x == char(c)
+		if b.Const && b.IVal.Sign() >= 0 && b.IVal.IsInt64() && b.IVal.Int64() < 256 && a.Op == "str.to_code" {
+			return Eq(a.Args[0], mkStr(string([]byte{byte(b.IVal.Int64())})))
+		}
+		if a.Const && a.IVal.Sign() >= 0 && a.IVal.IsInt64() && a.IVal.Int64() < 256 && b.Op == "str.to_code" {
+			return Eq(b.Args[0], mkStr(string([]byte{byte(a.IVal.Int64())})))
+		}
 		// len(x) == 0  <=>  x == ""
 		if b.Const && b.IVal.Sign() == 0 && a.Op == "str.len" {
 			return Eq(a.Args[0], mkStr(""))
@@ -856,6 +864,9 @@ func strLenInt(s *Term) *Term {
 	if s.Const {
 		return mkInt(int64(len(s.SVal)))
 	}
+	if s.Op == "var" && s.Exact > 0 {
+		return mkInt(int64(s.Exact))
+	}
 	if s.Op == "str.++" {
 		r := mkInt(0)
 		for _, a := range s.Args {
@@ -890,8 +901,35 @@ func strAt(s, i *Term) *Term { // i is Int
 			n -= int64(len(a.SVal))
 		}
 	}
+	if s.Op == "var" && s.Exact == 1 && i.Const && i.IVal.Sign() == 0 {
+		return s
+	}
+	if s.Op == "str.++" {
+		// locate the part holding position i when boundaries are decidable
+		b := mkInt(0)
+		for _, p := range s.Args {
+			n := strLenInt(p)
+			d, ok := linConstDiff(i, b)
+			if !ok || d < 0 {
+				break
+			}
+			if p.Const {
+				if d < int64(len(p.SVal)) {
+					return mkStr(p.SVal[d : d+1])
+				}
+			} else if n.Const {
+				if d < n.IVal.Int64() {
+					return strAt(p, mkInt(d))
+				}
+			} else {
+				break
+			}
+			b = intAdd(b, n)
+		}
+	}
 	t := app("str.at", KStr, 0, s, i)
 	t.MaxLen = 1
+	t.Alpha = s.Alpha
 	return t
 }
 
@@ -1288,6 +1326,8 @@ func minLen(s *Term) int {
 	for _, p := range partsOf(s) {
 		if p.Const {
 			n += len(p.SVal)
+		} else if p.Op == "var" && p.Exact > 0 {
+			n += p.Exact
 		}
 	}
 	return n
